@@ -250,7 +250,8 @@ theorem entry_rejects_of_step {e : Entry} {m : Model} {a : Args} (hr : Ready e m
   runSteps_valueError _ (guards_ok hr) ⟨s, hs, hfail⟩
 
 theorem mem_xStep : ∀ (e : Entry) (b c : Bool),
-    Step.xFresh ∈ table e b c ∨ Step.xFitted ∈ table e b c ∨ Step.xFittedTerm ∈ table e b c := by
+    Step.xFresh ∈ table e b c ∨ Step.xFitted ∈ table e b c ∨ Step.xFittedTerm ∈ table e b c
+      ∨ Step.xFittedWidth ∈ table e b c := by
   intro e b c; cases e <;> cases b <;> cases c <;> decide
 
 theorem mem_yFinite : ∀ (e : Entry) (b c : Bool), DataArg.y ∈ e.args →
@@ -259,7 +260,6 @@ theorem mem_yFinite : ∀ (e : Entry) (b c : Bool), DataArg.y ∈ e.args →
   intro e b c; cases e <;> cases b <;> cases c <;> decide
 
 theorem mem_weights : ∀ (e : Entry) (b c : Bool), DataArg.weights ∈ e.args →
-    ¬ (e = .fitQuantile ∧ b = true ∧ c = true) →
     Step.vecFinite .weights ∈ table e b c ∧ Step.lenEq .y .weights ∈ table e b c := by
   intro e b c; cases e <;> cases b <;> cases c <;> decide
 
@@ -269,14 +269,16 @@ theorem mem_exposure : ∀ (e : Entry) (b c : Bool), DataArg.exposure ∈ e.args
         (e = .poissonPredict ∧ Step.lenEq .X .exposure ∈ table e b c)) := by
   intro e b c; cases e <;> cases b <;> cases c <;> decide
 
-theorem mem_lenXY : ∀ (e : Entry) (b c : Bool), DataArg.y ∈ e.args →
-    Step.lenXY ∈ table e b c ∨
-      ((e = .loglikelihood ∨ e = .poissonLoglikelihood) ∧ Step.broadcastXY ∈ table e b c) := by
+theorem mem_lenXY : ∀ (e : Entry) (b c : Bool), DataArg.y ∈ e.args → Step.lenXY ∈ table e b c := by
   intro e b c; cases e <;> cases b <;> cases c <;> decide
 
 theorem mem_xFitted : ∀ (e : Entry) (b c : Bool), (e.needsFit = true ∨ (e = .fitQuantile ∧ b = true)) →
     Step.xFitted ∈ table e b c ∨ (e = .partialDependence ∧ Step.xFittedTerm ∈ table e b c) := by
   intro e b c; cases e <;> cases b <;> cases c <;> decide
+
+theorem mem_xFittedWidth : ∀ (e : Entry) (c : Bool), (e = .gridsearch ∨ e = .poissonGridsearch) →
+    Step.xFittedWidth ∈ table e true c := by
+  intro e c; cases e <;> cases c <;> decide
 
 theorem mem_compile : ∀ (e : Entry) (b c : Bool),
     (e = .fit ∨ e = .poissonFit ∨ ((e = .gridsearch ∨ e = .poissonGridsearch) ∧ b = false)
